@@ -423,6 +423,7 @@ Proof.
     try (apply first_err_mono; exact IH).
   - destruct (mem_str f0 fn) eqn:E; [|discriminate]. rewrite (H _ E). reflexivity.
   - destruct (mem_str s_date fn) eqn:E; [|discriminate]. rewrite (H _ E). reflexivity.
+  - destruct (mem_str s_date fn) eqn:E; [|discriminate]. rewrite (H _ E). reflexivity.
 Qed.
 
 Lemma mem_keys_dict_set {V} (k x : str) (v : V) l :
